@@ -53,7 +53,7 @@ LabelSpellings == UNION {Spellings(m) : m \in LabelMeanings}
 (* Layout vocabulary.  The first element of each tuple is the canonical    *)
 (* choice (cost 0).                                                        *)
 Indents   == <<"", "  ", "\t">>
-Gaps      == <<" ", "", "  ", "\t", " /* c */ ">>       \* between tokens of one line (inline comment = whitespace)
+Gaps      == <<" ", "", "  ", "\t", " /* c */ ", " /* c\nd */ ">>   \* between tokens of one line (an inline comment is whitespace, even when it spans lines)
 Trailers  == <<"", " # c", " // c", " /* c */">>         \* after the last token of a line, before the newline
 Eols      == <<"\n", "\r\n">>
 Leads     == <<"", "\n", "# c\n", "// c\n", "/* c */\n", "/* c\nd */\n", "  \n">>   \* whole lines before an item
